@@ -88,7 +88,7 @@ double DownhillSimplexMethod::doStep()
 
   for (unsigned int i = 0; i < mpts; i++)
   {
-    if (y_[i] <= y_[iLowest_])
+    if (y_[i] < y_[iLowest_])
       iLowest_ = i;
     if (y_[i] > y_[iHighest_])
     {
